@@ -25,6 +25,9 @@ def install(ns, prop, level, oracles, bounds, assumptions, extra_tasks=None, ext
             elif spec[0] == 'alpha':
                 _, name, cfgs, depth, k = spec
                 out += master.make_alpha_tasks(cfgs, name, alphabets[name], depth, k)
+            elif spec[0] == 'reopen':
+                _, cfgs, depth_after = spec
+                out += master.make_reopen_tasks(cfgs, depth_after)
         if extra_tasks:
             out += extra_tasks(tier)
         return out
@@ -48,6 +51,9 @@ def install(ns, prop, level, oracles, bounds, assumptions, extra_tasks=None, ext
                 return {'enumeration': 'all histories over sigma1/' + spec[1], 'configs': len(spec[2]), 'depth': spec[3]}
             if spec[0] == 'alpha':
                 return {'enumeration': 'all histories over ' + spec[1], 'configs': len(spec[2]), 'depth': spec[3]}
+            if spec[0] == 'reopen':
+                return {'enumeration': 'base images of mc/ops.py:reopen_bases . REOPEN . all histories over sigma1/reopen (further REOPENs allowed)',
+                        'configs': len(spec[1]), 'depth_after_reopen': spec[2]}
             return {'enumeration': 'every prefix of the growth/shrink chains of mc/ops.py:chains_for', 'configs': len(spec[1])}
         cov = {
             'states': len(r.sets.get('states', ())),
@@ -69,6 +75,8 @@ def install(ns, prop, level, oracles, bounds, assumptions, extra_tasks=None, ext
 
 
 ALPHABETS = {
+    'sigma_readd': lambda m: ops.sigma_readd(m, 'quick'),
+    'sigma_readd_big': lambda m: ops.sigma_readd(m, 'thorough'),
     'sigma_ce': lambda m: ops.sigma_ce(m, 'quick'),
     'sigma_ce_big': lambda m: ops.sigma_ce(m, 'thorough'),
 }
@@ -81,6 +89,9 @@ def default_bounds(quick_depth=2, thorough_depth=3, ce=False):
         'thorough': [('dfs', 'quick', ops.CFG12, thorough_depth, 2), ('dfs', 'macro', ops.CFG12, 2, 1),
                      ('dfs', 'quick', ops.CFG256, 2, 1), ('chains', ops.CFG12)],
     }
+    b['quick'].append(('alpha', 'sigma_readd', [ops.CFG12[7], ops.CFG12[9]], 4, 2))
+    b['thorough'].append(('alpha', 'sigma_readd', ops.CFG12, 5, 2))
+    b['thorough'].append(('alpha', 'sigma_readd_big', ops.CFG_MULTI[1:4], 5, 2))
     if ce:
         b['quick'].append(('alpha', 'sigma_ce', ops.CFG_RR[:2], 5, 2))
         b['thorough'].append(('alpha', 'sigma_ce', ops.CFG_RR, 6, 2))
